@@ -13,7 +13,15 @@ echo "== patched: existing suite must pass"
 cargo test --workspace --offline --lib 2>&1 | grep -E "^test result" | sort | uniq -c
 echo "== patched: demo must fail"
 RUSTFLAGS="${SEED_RUSTFLAGS:-}" cargo test -p $CRATE --offline --test seeddemo_$V 2>&1 | grep -E "^test result|error(\[|:)" | head -3
-git checkout -q -- .; rm -f $CRATE/tests/seeddemo_$V.rs
-echo "== /repo + patch: ./check $P"
-cd /repo && git apply $O/patch.diff && (cd /verif && ./check $P; echo "rc=$?"); git -C /repo checkout -q -- .
-git -C /repo status --short | head -3
+rm -f $CRATE/tests/seeddemo_$V.rs
+if [ -n "${SEED_OVERLAY:-}" ]; then
+  # the patched scratch worktree itself is the source overlay: /repo is not touched (other work may be reading it)
+  echo "== overlay (patched worktree): ./check $P"
+  (cd /verif && VERIF_REPO=$W ./check $P; echo "rc=$?")
+  git checkout -q -- .
+else
+  git checkout -q -- .
+  echo "== /repo + patch: ./check $P"
+  cd /repo && git apply $O/patch.diff && (cd /verif && ./check $P; echo "rc=$?"); git -C /repo checkout -q -- .
+  git -C /repo status --short | head -3
+fi
